@@ -11,7 +11,7 @@ from pyvc.interp import LoopSpec
 from pyvc import types as T
 from pyvc.state import lazy_alloc
 from pyvc.units import TableUnit
-from pyvc.values import ClassVal, ListObj, RecObj, Ref, RowView, Opt, StrSort, Chr, Rope, lit, str_len, fresh_name
+from pyvc.values import ClassVal, ListObj, RecObj, Ref, RowView, Opt, StrSort, Chr, Rope, lit, str_len, fresh_name, to_z3, norm_str
 from pyvc.libmodels.tables import BigTableModel
 from pyvc.libmodels.strings import StrModel, cp_at
 
@@ -157,6 +157,17 @@ class ValidatorContract(Contract):
 
     row_var = "row"
 
+    def _char_inv(self, c, nested):
+        """innermost loop over the characters of one element (validate_text_format): characters before position i are legal codes"""
+        from pyvc.values import str_len
+        from pyvc.libmodels.strings import cp_at
+
+        def inv(v):
+            el = v.state.env["format"]
+            q = z3.Int("iq")
+            return {"chars_before_legal": ForAll([q], Implies(And(0 <= q, q < v.i), self.legal_char(c, cp_at(to_z3(norm_str(el)), q))))}
+        return inv
+
     def ensures(self, c, out):
         same = out.value is c.st.env.get("v") or out.value == c.ctx.params.get("v") if not z3.is_expr(out.value) else out.value.eq(c.ctx.params.get("v"))
         return {"returns_input": z3.BoolVal(bool(same)), "returned_only_if_all_legal": self.all_legal(c)}
@@ -181,6 +192,22 @@ def make(name, target, cls_name, elem, legal_fn, shapes=("none", "flat", "nested
     return inst
 
 
+def make_text_format(row):
+    """validate_text_format: every CHARACTER of every element is a key of FORMAT_CODES ('' is the empty format: no characters)."""
+    from pyvc.libmodels.strings import cp_at
+    keys = [k for k in row.FORMAT_CODES if len(k) == 1]
+
+    def legal_char(c, cp):
+        return Or(*[cp == ord(k) for k in keys])
+
+    def legal(c, x):
+        q = z3.Int("lq")
+        return ForAll([q], Implies(And(0 <= q, q < str_len(x)), legal_char(c, cp_at(x, q))))
+    inst = make("ValidateTextFormat", "attributes.py::TextAttributes.validate_text_format", "TextAttributes", "str", legal, inner_chars=True)
+    type(inst).legal_char = lambda self, c, cp: legal_char(c, cp)
+    return inst
+
+
 def _in(values):
     return lambda c, x: Or(*[x == (lit(v) if isinstance(v, str) else v) for v in values])
 
@@ -199,6 +226,7 @@ def build_units(index):
     units = [
         make("ValidateTextFont", A + "TextAttributes.validate_text_font", "TextAttributes", "int", _in(fonts)),
         make("ValidateTextFontSize", A + "TextAttributes.validate_text_font_size", "TextAttributes", "real", lambda c, x: x > 0),
+        make_text_format(row),
         make("ValidateTextColor", A + "TextAttributes.validate_text_color", "TextAttributes", "str", color_legal),
         make("ValidateTextBackgroundColor", A + "TextAttributes.validate_text_background_color", "TextAttributes", "str", color_legal),
         make("ValidateTextJustification", A + "TextAttributes.validate_text_justification", "TextAttributes", "str",
